@@ -137,3 +137,10 @@ package cmap
 //@   loop 0
 //@     invariant 0 <= i && i <= count && len(data) == 2*count && res != nil && code2rune != nil
 //@     decreases count - i
+
+// Format 0 (byte encoding table): glyph 0 for every code outside 0..255
+// (decodeFormat0 / Encode slice an array embedded in a struct: outside the engine's subset).
+//@ func (cmap *Format0) Lookup(r rune) (gid glyph.ID)   props: C09 C16
+//@   requires cmap != nil
+//@   ensures gid == ite(0 <= r && r <= 255, cmap.Data[r], 0)
+//@   modifies nothing
